@@ -98,6 +98,10 @@ def split_unit(u):
     return parts[0].split(' '), parts[1:]
 
 
+def show_(r):
+    return '%.6g' % float(r.const_value()) if isinstance(r, Rat) and r.is_const() else repr(r)
+
+
 def check(run, repo):
     m = repo.module(MOD)
     run.explanation = (
@@ -640,7 +644,28 @@ def elements(run, repo, m):
         run.check(isinstance(r, Rat) and r.eq(want), 'REF.molweight', 'pmutt.get_molecular_weight',
                   'comp:%s' % (comp,), 'molar mass is not the count-weighted sum of atomic weights '
                   '(got %r)' % (r,), pm, fn, sample='M(%s) == sum n_i*w_i' % (comp,))
-    # formula string is routed through parse_formula
-    calls = [ast.unparse(c.func) for c in ast.walk(fn) if isinstance(c, ast.Call)]
-    run.check('parse_formula' in calls, 'PATH.molweight', 'pmutt.get_molecular_weight', 'string-route',
-              'a formula string is not routed through parse_formula', pm, fn)
+    # a formula string gives the same molar mass as its composition, every time: the composition handed out for a
+    # formula belongs to the caller (editing it must not change what the formula means afterwards)
+    pf = pm.functions.get('parse_formula')
+    if pf is None:
+        raise AnchorError('pmutt.parse_formula not found')
+    run.fn('pmutt.parse_formula')
+    if all(k in tab for k in ('C', 'H', 'O')):
+        want = C(tab['C']) + C(tab['H']) * 4 + C(tab['O'])
+        I = Interp(repo)
+        r1 = I.call_function(pm, fn, ['CH3OH'], {}, name='pmutt.get_molecular_weight')
+        run.check(isinstance(r1, Rat) and r1.eq(want), 'REF.molweight', 'pmutt.get_molecular_weight', 'formula string',
+                  'molar mass of the formula CH3OH is %s, not C + 4 H + O' % show_(r1), pm, fn)
+        comp = I.call_function(pm, pf, ['CH3OH'], {}, name='pmutt.parse_formula')
+        if isinstance(comp, DictV) and comp.d:
+            k0 = list(comp.d)[0]
+            comp.d[k0] = comp.d[k0] + 1            # the caller edits the composition it was given
+            comp.d['Zz'] = C(3)
+            r2 = I.call_function(pm, fn, ['CH3OH'], {}, name='pmutt.get_molecular_weight')
+            again = I.call_function(pm, pf, ['CH3OH'], {}, name='pmutt.parse_formula')
+            run.check(isinstance(r2, Rat) and r2.eq(want) and isinstance(again, DictV) and again is not comp and
+                      'Zz' not in again.d, 'EFFECT.shared-state', 'pmutt.parse_formula', 'composition edited by the caller',
+                      'after the caller edits the dictionary parse_formula returned for CH3OH, the same formula string '
+                      'has molar mass %s (expected %s) and parses to %s: results are shared between calls'
+                      % (show_(r2), show_(want), sorted(map(str, again.d)) if isinstance(again, DictV) else again),
+                      pm, pf)
